@@ -11,6 +11,7 @@ pub struct C10 {
     pub entry: Entry,
     pub d: usize,
     pub routing: Routing,
+    pub thorough: bool,
 }
 
 fn go<T: Scalar, const D: usize>(h: &C10, out: &mut Outcome<T>) {
@@ -34,6 +35,9 @@ fn go<T: Scalar, const D: usize>(h: &C10, out: &mut Outcome<T>) {
     let l = g.num_loops();
     let (zero, one, two) = (T::rat(0, 1), T::rat(1, 1), T::rat(2, 1));
     // further abstractions: lambda > 0, Gaussian vectors arbitrary reals
+    // v >= 0 (it is F/U): abstracted so that the square root of v/(2 lambda) is defined; the justification
+    // is itself a query (it may time out for L >= 2, which is reported; C09 proves v*u = F)
+    out.cut(res.v, "V", &["(>= {} 0.0)"]);
     out.cut(md.lambda, "LAM", &[]);
     out.assume("lambda>0", zero, Rel::Lt, md.lambda);
     for i in 0..l {
@@ -48,7 +52,7 @@ fn go<T: Scalar, const D: usize>(h: &C10, out: &mut Outcome<T>) {
             out.cut_local(md.decompoisiton_result.inverse[(i, j)], format!("INV{}_{}", i, j));
         }
     }
-    let base = ["X", "LAM", "Q"];
+    let base = ["X", "LAM", "Q", "V"];
     // shift = L^-1 u  <=>  L shift = u
     for i in 0..l {
         for d in 0..D {
@@ -74,7 +78,7 @@ fn go<T: Scalar, const D: usize>(h: &C10, out: &mut Outcome<T>) {
             for j in 0..l {
                 sq = sq + md.decompoisiton_result.q_transposed_inverse[(i, j)] * md.q_vectors[j][d];
             }
-            out.prove_cuts(format!("k+shift=pref*Qti*q[{}][{}]", i, d), res.loop_momenta[i][d] + md.shift[i][d], Rel::Eq, pref * sq, &["X", "LAM", "Q", "S", "INV"]);
+            out.prove_cuts(format!("k+shift=pref*Qti*q[{}][{}]", i, d), res.loop_momenta[i][d] + md.shift[i][d], Rel::Eq, pref * sq, &["X", "LAM", "Q", "V", "S", "INV"]);
         }
     }
     // lemma: Q^-1 L Q^-T = I  (Qti^T... entrywise: sum_kl Qti[k][i] L[k][l] Qti[l][j]), the covariance statement
@@ -110,7 +114,11 @@ fn go<T: Scalar, const D: usize>(h: &C10, out: &mut Outcome<T>) {
             q2 = q2 + md.q_vectors[i][d] * md.q_vectors[i][d];
         }
     }
-    out.prove_cuts("sum x(|q_e|^2+m^2)=v(1+|q|^2/2lambda)", lhs, Rel::Eq, res.v * (one + q2 / (two * md.lambda)), &base);
+    // the composite identity is attempted for one loop in the quick tier (for L >= 2 it follows from the lemmas above
+    // and C09's v = c - u.L^-1.u; the thorough tier attempts it for every graph and reports what z3 answers)
+    if l == 1 || h.thorough {
+        out.prove_cuts("sum x(|q_e|^2+m^2)=v(1+|q|^2/2lambda)", lhs, Rel::Eq, res.v * (one + q2 / (two * md.lambda)), &["X", "LAM", "Q"]);
+    }
     out.twin_cuts("twin:sum=v(1+|q|^2/lambda)", lhs, Rel::Eq, res.v * (one + q2 / md.lambda), &base);
     if l >= 2 {
         // transposed factor: Q (k+shift) instead of Q^T (k+shift)
@@ -153,10 +161,10 @@ pub fn run(cfg: &RunCfg) -> PartResult {
     for entry in entries(cfg.tier, false) {
         let g = entry.ograph();
         let d = *entry.dims.iter().min().unwrap();
-        let nr = if cfg.tier == Tier::Thorough { 3 } else { 2 };
+        let nr = if g.num_loops() >= 3 { 1 } else { 3 };
         for routing in routings(&g, nr) {
             covered.push(json!({"graph": entry.name, "E": entry.ne(), "L": g.num_loops(), "D": d, "routing": routing.name}));
-            total.merge(check_harness(&C10 { entry: entry.clone(), d, routing }, cfg));
+            total.merge(check_harness(&C10 { entry: entry.clone(), d, routing, thorough: cfg.tier == Tier::Thorough }, cfg));
         }
     }
     total.bounds = json!({
